@@ -15,6 +15,7 @@ import ast
 
 from ..cfg import ENTRY, EXIT, header_parts
 from ..effects import FS_DELETE, FS_WRITE, USER_CALL
+from ..flow import Defs, Scope, conjuncts, unreachable_when
 from ..loader import AnalysisError, FuncInfo, dotted, norm, walk_no_nested
 from ..report import Ctx
 from ..selftest import Mutant
@@ -120,10 +121,8 @@ def _call_nodes(ctx: Ctx, fn: FuncInfo, target: str) -> set[int]:
     return out
 
 
-def check(ctx: Ctx) -> None:  # noqa: C901, PLR0912, PLR0915
-    P, cg, eff = ctx.prog, ctx.cg, ctx.effects
-
-    # ------------------------------------------------------------ 1 wired
+def rule_wired(ctx: Ctx) -> None:  # noqa: C901, PLR0912, PLR0915
+    P, cg = ctx.prog, ctx.cg
     for entry_q, val_q, fault in WIRED:
         entry = P.func(entry_q)
         P.func(val_q)
@@ -200,8 +199,10 @@ def check(ctx: Ctx) -> None:  # noqa: C901, PLR0912, PLR0915
     ok = "nx.topological_generations(graph)" in norm(tg.node) and "list(nx.topological_generations(graph))" in norm(tg.node)
     ctx.add("1-wired", tg, tg.node, ok, "generations are materialised eagerly (networkx raises on a cycle)" if ok else "topological_generations no longer consumes nx.topological_generations eagerly: cycles surface later", key="cycle-eager")
 
-    # ------------------------------------------------------------ 2 no-user
-    deferred = ("partial", "submit", "callback")
+
+
+def rule_no_user(ctx: Ctx) -> None:  # noqa: C901
+    P, cg, eff = ctx.prog, ctx.cg, ctx.effects
     for q in (f"{PL}.__init__", f"{PL}.add", f"{PL}._validate", f"{PF}.__init__", f"{PF}._validate", f"{PREP}.prepare_run", f"{RI}.RunInfo.create", f"{RI}.RunInfo.init_store",
               f"{PL}.update_defaults", f"{PL}.update_renames", f"{PL}.subpipeline", "pipefunc.map._shapes.map_shapes"):
         P.func(q)
@@ -235,7 +236,11 @@ def check(ctx: Ctx) -> None:  # noqa: C901, PLR0912, PLR0915
         ok = bool(users) and all(cfg.dominates(p0, u) for u in users)
         ctx.add("2-no-user", f, cfg.stmt[p0], ok, f"prepare_run dominates all {len(users)} statement(s) that can run user functions" if ok else "something that can run a user function is reachable before prepare_run returned", key="prepare-first")
 
-    # ------------------------------------------------------------ 3 no-write
+
+
+def rule_no_write(ctx: Ctx) -> None:  # noqa: C901, PLR0915
+    P, cg, eff = ctx.prog, ctx.cg, ctx.effects
+    prep = P.func(f"{PREP}.prepare_run")
     cmp_ = P.func(f"{RI}._compare_to_previous_run_info")
     for effect in (FS_WRITE, FS_DELETE):
         w = eff.witness(cmp_.qualname, effect)
@@ -248,10 +253,8 @@ def check(ctx: Ctx) -> None:  # noqa: C901, PLR0912, PLR0915
                 key=f"load-{effect}", path=eff.describe(w, effect) if w else None)
     create = P.func(f"{RI}.RunInfo.create")
     cfg = ctx.cfg(create)
-    cleanup_if = [n for n in cfg.nodes(lambda s: isinstance(s, ast.If) and norm(s.test) == "cleanup")]
-    if not cleanup_if:
-        raise AnalysisError("RunInfo.create: `if cleanup` not found")
-    cl_body_nodes = {cfg.node(s) for s in ast.walk(ast.Module(body=cfg.stmt[cleanup_if[0]].body, type_ignores=[])) if id(s) in cfg.node_of}
+    d_create = Defs(create)
+    cl_body_nodes = {n for n in cfg.nodes() if unreachable_when(cfg, d_create, n, {"cleanup": False})}  # only run when cleanup is true
 
     def effect_nodes(fn: FuncInfo, cfg_, effect: str, exclude: set[int]) -> list[int]:
         out = []
@@ -286,10 +289,15 @@ def check(ctx: Ctx) -> None:  # noqa: C901, PLR0912, PLR0915
     for val in (f"{RI}._check_inputs", "pipefunc.map._shapes.map_shapes", f"{RI}._compare_to_previous_run_info", f"{RI}._maybe_run_folder"):
         vn = {n for n in _call_nodes(ctx, create, val) if any(isinstance(c, ast.Call) and dotted(c.func).rsplit(".", 1)[-1] == val.rsplit(".", 1)[-1] for part in header_parts(cfg.stmt[n]) for c in ast.walk(part))}
         if val.endswith("_compare_to_previous_run_info"):
-            ok = bool(vn) and all(w0 not in cfg.reachable_from(ENTRY, without=vn | {cleanup_if[0]}) or True for _ in [0]) and not any(v in cfg.reachable_from(w0) for v in vn)
-            # it sits in the else arm of `if cleanup`: must precede the write on the cleanup=False path
-            els = cfg.stmt[cleanup_if[0]].orelse
-            ok = ok and any(cfg.node(s) in vn for s in els if id(s) in cfg.node_of)
+            # on the cleanup=False path every way to the first write passes the comparison, and it never comes after the write
+            env = {"cleanup": False}
+            if "run_folder" in create.param_names():
+                env["run_folder is None"] = False  # without a run folder nothing is written
+            for t_, truth in cfg.controls(w0):  # the conditions under which the write happens at all (a run folder exists)
+                for text, pol in conjuncts(d_create.resolve(t_), truth):
+                    env.setdefault(text, pol)
+            infeasible = {n for n in cfg.g.nodes if n not in (ENTRY, EXIT, w0) and unreachable_when(cfg, d_create, n, env)}
+            ok = bool(vn) and not any(v in cfg.reachable_from(w0) for v in vn) and w0 not in cfg.reachable_from(ENTRY, without=vn | infeasible)
         else:
             ok = bool(vn) and all(cfg.dominates(v, w0) for v in vn)
         ctx.add("3-no-write", create, cfg.stmt[w0], ok, f"{val.rsplit('.', 1)[-1]} runs before the first write to the run folder" if ok else f"the run folder is written before {val.rsplit('.', 1)[-1]} has accepted the request", key=f"before-write {val.rsplit('.', 1)[-1]}")
@@ -301,7 +309,18 @@ def check(ctx: Ctx) -> None:  # noqa: C901, PLR0912, PLR0915
     for val in (f"{PREP}._validate_complete_inputs", "pipefunc.map._mapspec.validate_consistent_axes", f"{PREP}._validate_fixed_indices", f"{PL}.subpipeline",
                 "pipefunc.map._adaptive_scheduler_slurm_executor.validate_slurm_executor"):
         short = val.rsplit(".", 1)[-1]
-        vn = {n for n in cfg_p.nodes() if any(isinstance(c, ast.Call) and dotted(c.func).rsplit(".", 1)[-1] == short for part in header_parts(cfg_p.stmt[n]) for c in ast.walk(part))}
+        helpers = {f_.name: f_ for f_ in Scope(ctx, prep).funcs[1:]}
+
+        def calls_short(st: ast.AST, short: str = short) -> bool:
+            for part in header_parts(st):
+                for c in ast.walk(part):
+                    if isinstance(c, ast.Call):
+                        last = dotted(c.func).rsplit(".", 1)[-1] if dotted(c.func) else getattr(c.func, "attr", "")
+                        if last == short or (last in helpers and any(isinstance(x, ast.Call) and (dotted(x.func).rsplit(".", 1)[-1] if dotted(x.func) else getattr(x.func, "attr", "")) == short for x in ast.walk(helpers[last].node))):
+                            return True
+            return False
+
+        vn = set(cfg_p.nodes(calls_short))
         ok = bool(vn) and all(cfg_p.dominates(v, wp0) or (isinstance(cfg_p.stmt[v], ast.Assign) and short == "subpipeline" and not (wp0 in cfg_p.reachable_from(ENTRY, without={v}) and v in cfg_p.reachable_from(wp0))) for v in vn)
         if short == "subpipeline":
             ok = bool(vn) and not any(v in cfg_p.reachable_from(wp0) for v in vn)
@@ -312,6 +331,11 @@ def check(ctx: Ctx) -> None:  # noqa: C901, PLR0912, PLR0915
     calls = [c for c in ast.walk(prep.node) if isinstance(c, ast.Call) and dotted(c.func).endswith("RunInfo.create")]
     ok = bool(calls) and any(k.arg == "cleanup" and norm(k.value) == "cleanup" for k in calls[0].keywords) and any(k.arg == "storage" and norm(k.value) == "storage" for k in calls[0].keywords)
     ctx.add("3-no-write", prep, calls[0] if calls else prep.node, ok, "cleanup and storage are forwarded unchanged" if ok else "prepare_run does not forward cleanup/storage unchanged to RunInfo.create", key="forward-cleanup")
+
+
+def check(ctx: Ctx) -> None:
+    for rule in (rule_wired, rule_no_user, rule_no_write):
+        ctx.run(rule)
 
 
 B, PFF, PR, RIF = "pipefunc/_pipeline/_base.py", "pipefunc/_pipefunc.py", "pipefunc/map/_prepare.py", "pipefunc/map/_run_info.py"
